@@ -161,6 +161,7 @@ void World::apply(int i, const Op& op) {
 	case OP_PLAN_APPEND: {
 		if (!act || !(caps & CAP_PLANS) || op.a < 0 || op.a >= sh.nRegions || !validState(op.c) || !validState(op.d)) break;
 		if ((op.b == K_UTILIZE || op.b == K_RANDOMIZE) && !(caps & CAP_UTILITY)) break;
+		if (plan.wp.maxTasks >= 0) { PlanProbe pp; n.probePlans(pp); if (pp.count >= plan.wp.maxTasks) break; }
 		const bool wp = op.withPayload && (caps & CAP_PAYLOAD);
 		const bool ok = n.planAppend(op.a, op.b, op.c, op.d, wp ? &op.payload : nullptr);
 		Ev e; e.k = EV_PLAN_EDIT; e.state = -1; e.a = A_PLAN_APPEND | (op.a << 8) | (int(op.b) << 16); e.b = op.c; e.c = op.d | (ok ? 0x10000 : 0); e.hasP = wp; e.p = wp ? op.payload : 0; h.push(e);
